@@ -500,6 +500,27 @@ package modbus
 //@   ensures forall k in 0..len(data.(slotsSorter)) :: data.(slotsSorter)[k].address == old(data.(slotsSorter)[now(sortSrc(sortCalls, k))].address) && data.(slotsSorter)[k].size == old(data.(slotsSorter)[now(sortSrc(sortCalls, k))].size) && len(data.(slotsSorter)[k].fields) == old(len(data.(slotsSorter)[now(sortSrc(sortCalls, k))].fields))
 //@   ensures forall k in 0..len(data.(slotsSorter)) :: forall m in 0..len(data.(slotsSorter)[k].fields) :: data.(slotsSorter)[k].fields[m] == old(data.(slotsSorter)[now(sortSrc(sortCalls, k))].fields[m])
 
+// the three methods sort.Sort is given: the assumed contract of sort.Sort above ("sorted by address, a permutation")
+// holds only if these are the length, the address order and the exchange of two elements
+//@ func (a slotsSorter) Len() (res int)
+//@   safety[C05,C06]
+//@   modifies nothing
+//@   ensures[C05,C06] res == len(a)
+
+//@ func (a slotsSorter) Less(i int, j int) (res bool)
+//@   requires 0 <= i && i < len(a) && 0 <= j && j < len(a)
+//@   safety[C05,C06]
+//@   modifies nothing
+//@   ensures[C05,C06] res <==> int(a[i].address) < int(a[j].address)
+
+//@ func (a slotsSorter) Swap(i int, j int)
+//@   requires 0 <= i && i < len(a) && 0 <= j && j < len(a)
+//@   safety[C05,C06]
+//@   modifies a
+//@   ensures[C05,C06] a[i].address == old(a[j].address) && a[j].address == old(a[i].address) && a[i].size == old(a[j].size) && a[j].size == old(a[i].size)
+//@   ensures[C05,C06] len(a[i].fields) == old(len(a[j].fields)) && len(a[j].fields) == old(len(a[i].fields))
+//@   ensures[C05,C06] forall k in 0..len(a) :: (k != i && k != j) ==> a[k].address == old(a[k].address) && a[k].size == old(a[k].size) && len(a[k].fields) == old(len(a[k].fields))
+
 //@ func batchToRequests(connectionGroup []builderSlotGroup) (res []requestBatch)
 //@   requires forall j in 0..len(connectionGroup) :: groupOK(connectionGroup[j])
 //@   requires forall j in 0..len(connectionGroup) :: connectionGroup[j].isForCoils == connectionGroup[0].isForCoils
